@@ -114,7 +114,7 @@ func (e *entry) String() string {
 }
 
 // twins reports whether two entries (may) share secret key material: some pair of their secrets
-// starts with the same 16 bytes.  That happens for RSA pool keys and in shrunk cases where drawn bytes
+// agrees in bytes 1..15 (byte 0 is left out because X25519 clamps its low bits).  That happens for RSA pool keys and in shrunk cases where drawn bytes
 // are zero.  The relation is deliberately coarse: HMAC keys that differ only in trailing zero bytes are
 // the same key, and AES-SIV keys that differ only in the second half give the same output for an
 // empty plaintext.  Twins may accept each other's outputs; the model (which ENABLED single-key
@@ -122,7 +122,7 @@ func (e *entry) String() string {
 func twins(a, b *entry) bool {
 	for _, x := range a.secrets() {
 		for _, y := range b.secrets() {
-			if len(x) >= 16 && len(y) >= 16 && bytes.Equal(x[:16], y[:16]) {
+			if len(x) >= 16 && len(y) >= 16 && bytes.Equal(x[1:16], y[1:16]) {
 				return true
 			}
 		}
@@ -177,6 +177,16 @@ func (s *spec) enabled() []*entry {
 		}
 	}
 	return out
+}
+
+// normalize maps legacy key material to a canonical representative: X25519 private keys that differ
+// only in the clamped bits are the same key.
+func normalize(url string, material []byte) []byte {
+	if url == legacykm.HybridPrivURL {
+		material[0] &= 248
+		material[31] = material[31]&127 | 64
+	}
+	return material
 }
 
 var legacyPrefixTypes = []tinkpb.OutputPrefixType{tinkpb.OutputPrefixType_TINK, tinkpb.OutputPrefixType_LEGACY, tinkpb.OutputPrefixType_CRUNCHY, tinkpb.OutputPrefixType_RAW}
@@ -248,13 +258,13 @@ func drawSpec(rt *rapid.T, a *adapter, maxKeys int, serializableOnly bool) *spec
 		if a.legacyURL != "" && rapid.IntRange(0, 2).Draw(rt, label+"_legacy") == 0 {
 			e.url = a.legacyURL
 			e.prefixType = rapid.SampledFrom(legacyPrefixTypes).Draw(rt, label+"_prefixtype")
-			e.material = gen.BytesN(rt, label+"_material", a.legacyLen)
+			e.material = normalize(a.legacyURL, gen.BytesN(rt, label+"_material", a.legacyLen))
 			// distinct from every other legacy key of the keyset, by construction
 			for clash := true; clash; {
 				clash = false
 				for _, o := range s.entries {
 					if o.legacy() && twins(o, e) {
-						e.material[0]++
+						e.material[8]++
 						clash = true
 					}
 				}
